@@ -20,6 +20,9 @@ pub fn c06() -> Profile {
     p.max_depth = 5;
     p.size = 80;
     p.w_closure = 8;
+    // scopes are also left by exceptions, and a handler's variable is a variable like any other
+    p.w_try = 2;
+    p.w_throw = 1;
     p
 }
 
